@@ -1,5 +1,46 @@
-(* CacheProofs.v — property C05: the per-vertex memo of neighbors() answers is transparent.
-   (header completed at the end of the file's development; see the summary below)            *)
+(* CacheProofs.v — property C05: the per-vertex memo of neighbors() answers is TRANSPARENT.
+   At every point of every history interleaving graph mutations, toggles of the caching flag and
+   queries, a cached answer equals what the uncached loop would recompute on the current graph.
+   Proof file: stdlib only, nothing admitted, no axioms (Print Assumptions at the end: all closed).
+   `filt` (the table of filter functions) is arbitrary throughout.
+
+   1  neighbors_pure_footprint   neighbors_pure filt s v reads only vl s v and, for each l in it,
+                                 lv s l and kd s l (nb_link_footprint, nb_loop_footprint).
+   2  ckey_eqb_eq                key comparison is decidable equality on dirn * unk * option nat;
+      ca_lookup_store_same/other the memo is a dictionary;
+      Coh_query                  wf s -> Coh filt s -> isv s v -> the answer of neighbors_c is
+                                 neighbors_pure (hit: the stored entry; miss: exactly the recomputed
+                                 list is stored), Coh is kept, and only `cache` may change.
+   3  Coh_transfer               Coh s, and every w has ca s' w = [] or (ca s' w = ca s w and an
+                                 unchanged footprint: vl w, and lv / kd of its links) -> Coh s'.
+                                 (`frame s s'` names that condition; it is reflexive, transitive.)
+      ca_inval, ca_inval_all     invalidation empties exactly the named memos (no side condition).
+      frame_link_edit            an edit around one link l: memos only emptied (cmono), kinds and
+                                 other links' ends kept, whoever's link list changed and whoever was
+                                 named by l (when its end list changed) is emptied -> frame
+                                 (uses the association invariant: l in vl w -> w named by lv l).
+      frame_r_v_add_to_link, frame_r_l_add_vertex, frame_r_l_unlink_from,
+      frame_r_v_remove_from_link, frame_r_l_set_end, frame_alloc, same4_frame (universe / laws /
+      flag operations touch none of vlinks lverts kind cache), frame_nv_links (Vertex(links=..)
+      loop), frame_unlink_fold (explicit.unlink loop), frame_r_new_edge,
+      frame_r_step               wf s -> link_inv s -> frame s (fst (r_step s o))  for EVERY op;
+      Coh_step                   Inv s -> o is not NewLaws (Some _) -> Coh filt s ->
+                                 Coh filt (fst (step s o))          -- every mutator, no exception.
+   4  Inv_query                  a query keeps Inv (it writes `cache` only);
+      crun_pres, Coh_reachable, Inv_reachable_c
+                                 Inv and Coh hold after every history from the empty heap
+                                 (histories without NewLaws (Some _), as for step_refines).
+   5  cached_answers_equal_recomputed    THE TRANSPARENCY THEOREM: from any state with Inv and Coh,
+                                 for every split cs = pre ++ CNb v d u f :: post with v a vertex,
+                                 the outcome of the query is that of neighbors_pure on the current
+                                 heap (Ret (VList l) / Raised e) -- whatever the flag is and was.
+      cached_answers_equal_recomputed_empty   the same from the empty heap.
+   6  answers_independent_of_flag        answers filt cs empty = answers filt (map force_off cs) empty:
+                                 every outcome (mutators and queries) is the one obtained with
+                                 caching never enabled.  Route: obs s = all fields but cache/caching;
+                                 r_step respects obs-equality and returns equal outcomes
+                                 (r_step_sim; the reference edits commute with replacing the memo
+                                 table, `wcc`), queries answer alike under Coh (query_sim).       *)
 From EG Require Import Base Lemmas Lemmas2 State StateLemmas Nbrs Struct Footprint StateRw Ref RefStep Cache.
 From EG Require Import LinkProofs LinkStep.
 From EG Require LawsProofs UniProofs RefProofs.
@@ -634,9 +675,292 @@ Corollary cached_answers_equal_recomputed_empty : forall filt cs,
   end.
 Proof. intros filt cs NL. apply (cached_answers_equal_recomputed filt cs empty Inv_empty (Coh_empty filt) NL). Qed.
 
+(* ====================================================================================== *)
+(* 6. every outcome is independent of the flag                                            *)
+(* ====================================================================================== *)
+(* the observable part of the heap (everything but cache / caching), as a tuple *)
+Definition obs (s : state) :=
+  (kind s, vlinks s, lverts s, vunis s, uverts s, ulaws s, lapp s).
+(* s with another memo table and another flag *)
+Definition wcc (s : state) (c : list (list (ckey * list (option nat)))) (b : bool) : state :=
+  {| kind := kind s; vlinks := vlinks s; lverts := lverts s; vunis := vunis s; uverts := uverts s;
+     ulaws := ulaws s; lapp := lapp s; cache := c; caching := b |}.
+Lemma to_wcc a b : obs a = obs b -> b = wcc a (cache b) (caching b).
+Proof. destruct a, b. unfold obs, wcc. cbn. intros [= -> -> -> -> -> -> ->]. reflexivity. Qed.
+Lemma obs_wcc s c b : obs (wcc s c b) = obs s. Proof. reflexivity. Qed.
+
+Lemma vl_wcc s c b v : vl (wcc s c b) v = vl s v. Proof. reflexivity. Qed.
+Lemma lv_wcc s c b v : lv (wcc s c b) v = lv s v. Proof. reflexivity. Qed.
+Lemma kd_wcc s c b v : kd (wcc s c b) v = kd s v. Proof. reflexivity. Qed.
+Lemma vu_wcc s c b v : vu (wcc s c b) v = vu s v. Proof. reflexivity. Qed.
+Lemma uv_wcc s c b v : uv (wcc s c b) v = uv s v. Proof. reflexivity. Qed.
+Lemma ul_wcc s c b v : ul (wcc s c b) v = ul s v. Proof. reflexivity. Qed.
+Lemma la_wcc s c b v : la (wcc s c b) v = la s v. Proof. reflexivity. Qed.
+Lemma next_wcc s c b : next (wcc s c b) = next s. Proof. reflexivity. Qed.
+Lemma set_vl_wcc s c b v x : set_vl (wcc s c b) v x = wcc (set_vl s v x) c b. Proof. reflexivity. Qed.
+Lemma set_lv_wcc s c b v x : set_lv (wcc s c b) v x = wcc (set_lv s v x) c b. Proof. reflexivity. Qed.
+Lemma set_vu_wcc s c b v x : set_vu (wcc s c b) v x = wcc (set_vu s v x) c b. Proof. reflexivity. Qed.
+Lemma set_uv_wcc s c b v x : set_uv (wcc s c b) v x = wcc (set_uv s v x) c b. Proof. reflexivity. Qed.
+Lemma set_ul_wcc s c b v x : set_ul (wcc s c b) v x = wcc (set_ul s v x) c b. Proof. reflexivity. Qed.
+Lemma set_la_wcc s c b v x : set_la (wcc s c b) v x = wcc (set_la s v x) c b. Proof. reflexivity. Qed.
+Lemma inval_wcc s c b v : inval (wcc s c b) v = wcc (inval s v) (set v [] c) b. Proof. reflexivity. Qed.
+Fixpoint ica (c : list (list (ckey * list (option nat)))) (xs : list (option nat)) :=
+  match xs with [] => c | None :: r => ica c r | Some v :: r => ica (set v [] c) r end.
+Lemma inval_all_wcc xs : forall s c b, inval_all (wcc s c b) xs = wcc (inval_all s xs) (ica c xs) b.
+Proof.
+  induction xs as [|[x|] r IH]; intros s c b; cbn [inval_all ica]; [reflexivity| |apply IH].
+  rewrite inval_wcc. apply IH.
+Qed.
+Lemma alloc_wcc k s c b : alloc k (wcc s c b) = wcc (alloc k s) (c ++ [[]]) b. Proof. reflexivity. Qed.
+#[local] Hint Rewrite vl_wcc lv_wcc kd_wcc vu_wcc uv_wcc ul_wcc la_wcc next_wcc set_vl_wcc set_lv_wcc set_vu_wcc
+  set_uv_wcc set_ul_wcc set_la_wcc inval_wcc inval_all_wcc alloc_wcc : wcc.
+
+Ltac cases := repeat match goal with
+  | |- context [if ?b then _ else _] => destruct b eqn:?
+  | |- context [match ?x with Some _ => _ | None => _ end] => destruct x eqn:?
+  end.
+Ltac wcc_tac := cbv zeta; repeat (progress (autorewrite with wcc; cases)); try reflexivity.
+
+Definition robs (r : res) := match r with Ok s => (None, obs s) | Raise e s => (Some e, obs s) end.
+
+Lemma sim_of_wcc (f : state -> state) :
+  (forall s c b, obs (f (wcc s c b)) = obs (f s)) -> forall a b, obs a = obs b -> obs (f a) = obs (f b).
+Proof. intros H a b E. rewrite (to_wcc a b E), H. reflexivity. Qed.
+Lemma rsim_of_wcc (f : state -> res) :
+  (forall s c b, robs (f (wcc s c b)) = robs (f s)) -> forall a b, obs a = obs b -> robs (f a) = robs (f b).
+Proof. intros H a b E. rewrite (to_wcc a b E), H. reflexivity. Qed.
+
+Lemma sim_r_v_add_to_link v l a b : obs a = obs b -> obs (r_v_add_to_link a v l) = obs (r_v_add_to_link b v l).
+Proof. apply (sim_of_wcc (fun s => r_v_add_to_link s v l)). intros. unfold r_v_add_to_link. wcc_tac. Qed.
+Lemma sim_r_l_add_vertex l ov a b : obs a = obs b -> obs (r_l_add_vertex a l ov) = obs (r_l_add_vertex b l ov).
+Proof. apply (sim_of_wcc (fun s => r_l_add_vertex s l ov)). intros. unfold r_l_add_vertex. destruct ov; wcc_tac. Qed.
+Lemma sim_r_v_remove_from_link v l a b : obs a = obs b ->
+  obs (r_v_remove_from_link a v l) = obs (r_v_remove_from_link b v l).
+Proof. apply (sim_of_wcc (fun s => r_v_remove_from_link s v l)). intros. unfold r_v_remove_from_link. wcc_tac. Qed.
+Lemma sim_r_l_unlink_from l ov a b : obs a = obs b -> obs (r_l_unlink_from a l ov) = obs (r_l_unlink_from b l ov).
+Proof. apply (sim_of_wcc (fun s => r_l_unlink_from s l ov)). intros. unfold r_l_unlink_from. destruct ov; wcc_tac. Qed.
+Lemma sim_r_u_add_vertex u v a b : obs a = obs b -> robs (r_u_add_vertex a u v) = robs (r_u_add_vertex b u v).
+Proof. apply (rsim_of_wcc (fun s => r_u_add_vertex s u v)). intros. unfold r_u_add_vertex. wcc_tac. Qed.
+Lemma sim_r_v_add_to_universe v u a b : obs a = obs b -> robs (r_v_add_to_universe a v u) = robs (r_v_add_to_universe b v u).
+Proof. apply (rsim_of_wcc (fun s => r_v_add_to_universe s v u)). intros. unfold r_v_add_to_universe. wcc_tac. Qed.
+Lemma sim_r_u_remove_vertex u v a b : obs a = obs b -> robs (r_u_remove_vertex a u v) = robs (r_u_remove_vertex b u v).
+Proof. apply (rsim_of_wcc (fun s => r_u_remove_vertex s u v)). intros. unfold r_u_remove_vertex. wcc_tac. Qed.
+Lemma sim_r_v_remove_from_universe v u a b : obs a = obs b ->
+  robs (r_v_remove_from_universe a v u) = robs (r_v_remove_from_universe b v u).
+Proof. apply (rsim_of_wcc (fun s => r_v_remove_from_universe s v u)). intros. unfold r_v_remove_from_universe. wcc_tac. Qed.
+Lemma sim_r_set_laws u oL a b : obs a = obs b -> obs (r_set_laws a u oL) = obs (r_set_laws b u oL).
+Proof. apply (sim_of_wcc (fun s => r_set_laws s u oL)). intros. unfold r_set_laws, r_detach_la, r_detach_ul. destruct oL; wcc_tac. Qed.
+Lemma sim_r_set_applies L ou a b : obs a = obs b -> obs (r_set_applies a L ou) = obs (r_set_applies b L ou).
+Proof. apply (sim_of_wcc (fun s => r_set_applies s L ou)). intros. unfold r_set_applies, r_detach_la, r_detach_ul. destruct ou; wcc_tac. Qed.
+
+(* reads under obs-equality *)
+Section ObsReads.
+  Variables a b : state.
+  Hypothesis E : obs a = obs b.
+  Lemma obs_fields : kind a = kind b /\ vlinks a = vlinks b /\ lverts a = lverts b /\ vunis a = vunis b /\
+    uverts a = uverts b /\ ulaws a = ulaws b /\ lapp a = lapp b.
+  Proof. unfold obs in E. injection E. auto 10. Qed.
+  Lemma obs_vl v : vl a v = vl b v. Proof. unfold vl. now rewrite (proj1 (proj2 obs_fields)). Qed.
+  Lemma obs_lv v : lv a v = lv b v. Proof. unfold lv. now rewrite (proj1 (proj2 (proj2 obs_fields))). Qed.
+  Lemma obs_kd v : kd a v = kd b v. Proof. unfold kd. now rewrite (proj1 obs_fields). Qed.
+  Lemma obs_vu v : vu a v = vu b v. Proof. unfold vu. now rewrite (proj1 (proj2 (proj2 (proj2 obs_fields)))). Qed.
+  Lemma obs_next : next a = next b. Proof. unfold next. now rewrite (proj1 obs_fields). Qed.
+  Lemma obs_well_typed o : well_typed a o = well_typed b o.
+  Proof. rewrite (to_wcc a b E). reflexivity. Qed.
+  Lemma obs_isv v : isv a v = isv b v.
+  Proof. rewrite (to_wcc a b E). reflexivity. Qed.
+  Lemma obs_other l e : other a l e = other b l e.
+  Proof. unfold other, lv1, lv2. now rewrite obs_lv. Qed.
+  Lemma obs_first_joining x y ls : first_joining a x y ls = first_joining b x y ls.
+  Proof. induction ls as [|l r IH]; cbn [first_joining]; [reflexivity|]. rewrite obs_other, IH. reflexivity. Qed.
+  Lemma obs_fl_link ffl x y ds u f l : fl_link ffl a x y ds u f l = fl_link ffl b x y ds u f l.
+  Proof. unfold fl_link, is_end1, lv1. now rewrite obs_other, obs_kd, obs_lv. Qed.
+  Lemma obs_fl_loop ffl x y ds u f ls : forall acc, fl_loop ffl a x y ds u f ls acc = fl_loop ffl b x y ds u f ls acc.
+  Proof. induction ls as [|l r IH]; intro acc; cbn [fl_loop]; [reflexivity|]. rewrite obs_fl_link. destruct (fl_link _ _ _ _ _ _ _ _); auto. Qed.
+  Lemma obs_find_links ffl x y ds u f : find_links ffl a x y ds u f = find_links ffl b x y ds u f.
+  Proof. unfold find_links. rewrite obs_vl. apply obs_fl_loop. Qed.
+  Lemma obs_neighbors_pure filt v d u f : neighbors_pure filt a v d u f = neighbors_pure filt b v d u f.
+  Proof. apply neighbors_pure_footprint; [apply obs_vl|]. intros; split; [apply obs_lv|apply obs_kd]. Qed.
+End ObsReads.
+
+Lemma obs_inval s v : obs (inval s v) = obs s. Proof. reflexivity. Qed.
+Lemma obs_inval_all xs : forall s, obs (inval_all s xs) = obs s.
+Proof. induction xs as [|[x|] r IH]; intro s; cbn [inval_all]; auto. now rewrite IH. Qed.
+Lemma sim_set_lv l x a b : obs a = obs b -> obs (set_lv a l x) = obs (set_lv b l x).
+Proof. apply (sim_of_wcc (fun s => set_lv s l x)). reflexivity. Qed.
+Lemma sim_set_vu l x a b : obs a = obs b -> obs (set_vu a l x) = obs (set_vu b l x).
+Proof. apply (sim_of_wcc (fun s => set_vu s l x)). reflexivity. Qed.
+Lemma sim_set_ul l x a b : obs a = obs b -> obs (set_ul a l x) = obs (set_ul b l x).
+Proof. apply (sim_of_wcc (fun s => set_ul s l x)). reflexivity. Qed.
+Lemma sim_set_la l x a b : obs a = obs b -> obs (set_la a l x) = obs (set_la b l x).
+Proof. apply (sim_of_wcc (fun s => set_la s l x)). reflexivity. Qed.
+Lemma sim_alloc k a b : obs a = obs b -> obs (alloc k a) = obs (alloc k b).
+Proof. apply (sim_of_wcc (fun s => alloc k s)). reflexivity. Qed.
+
+Lemma sim_r_l_set_end l idx new a b : obs a = obs b -> robs (r_l_set_end a l idx new) = robs (r_l_set_end b l idx new).
+Proof.
+  intro E. unfold r_l_set_end, lv1, lv2. rewrite (obs_lv a b E).
+  destruct (nth_error (lv b l) 0) as [e1|]; [|cbn; now rewrite E].
+  destruct (nth_error (lv b l) 1) as [e2|]; [|cbn; now rewrite E].
+  cbv zeta. set (old := if Nat.eqb idx 0 then e1 else e2).
+  set (X := set idx new (lv b l)).
+  assert (E1 : obs (set_lv a l X) = obs (set_lv b l X)) by now apply sim_set_lv.
+  set (a2 := match old with Some ov => if memo (Some ov) (lv (set_lv a l X) l) then set_lv a l X
+                                       else r_v_remove_from_link (set_lv a l X) ov l | None => set_lv a l X end).
+  set (b2 := match old with Some ov => if memo (Some ov) (lv (set_lv b l X) l) then set_lv b l X
+                                       else r_v_remove_from_link (set_lv b l X) ov l | None => set_lv b l X end).
+  assert (E2 : obs a2 = obs b2).
+  { subst a2 b2. destruct old as [ov|]; [|exact E1]. rewrite (obs_lv _ _ E1).
+    destruct (memo _ _); [exact E1|now apply sim_r_v_remove_from_link]. }
+  set (a3 := match new with Some nv => if memn l (vl a2 nv) then a2 else r_v_add_to_link a2 nv l | None => a2 end).
+  set (b3 := match new with Some nv => if memn l (vl b2 nv) then b2 else r_v_add_to_link b2 nv l | None => b2 end).
+  assert (E3 : obs a3 = obs b3).
+  { subst a3 b3. destruct new as [nv|]; [|exact E2]. rewrite (obs_vl _ _ E2).
+    destruct (memn _ _); [exact E2|now apply sim_r_v_add_to_link]. }
+  cbn [robs]. rewrite !obs_inval_all, E3. reflexivity.
+Qed.
+
+Lemma sim_fold {X} (g : state -> X -> state) :
+  (forall x a b, obs a = obs b -> obs (g a x) = obs (g b x)) ->
+  forall xs a b, obs a = obs b -> obs (fold_left g xs a) = obs (fold_left g xs b).
+Proof. intro H. induction xs as [|x r IH]; intros a b E; cbn [fold_left]; auto. Qed.
+Lemma sim_seq_res (g : state -> nat -> res) :
+  (forall x a b, obs a = obs b -> robs (g a x) = robs (g b x)) ->
+  forall xs a b, obs a = obs b -> robs (seq_res g xs a) = robs (seq_res g xs b).
+Proof.
+  intro H. induction xs as [|x r IH]; intros a b E; cbn [seq_res]; [cbn; now rewrite E|].
+  pose proof (H x a b E) as Hx. destruct (g a x) as [a1|e1 a1], (g b x) as [b1|e2 b1]; cbn [robs bind] in *;
+    try discriminate.
+  - apply IH. congruence.
+  - exact Hx.
+Qed.
+Lemma robs_ok_or R1 R2 V : robs R1 = robs R2 ->
+  obs (fst (let '(r, out) := ok_or R1 V in (res_state r, out))) =
+  obs (fst (let '(r, out) := ok_or R2 V in (res_state r, out))) /\
+  snd (let '(r, out) := ok_or R1 V in (res_state r, out)) = snd (let '(r, out) := ok_or R2 V in (res_state r, out)).
+Proof. destruct R1, R2; cbn; intro H; try discriminate; split; congruence. Qed.
+
+Lemma sim_r_new_edge k x y a b : obs a = obs b ->
+  obs (res_state (fst (r_new_edge a k x y))) = obs (res_state (fst (r_new_edge b k x y))) /\
+  snd (r_new_edge a k x y) = snd (r_new_edge b k x y).
+Proof.
+  intro E. unfold r_new_edge.
+  assert (Hbad : forall o, match o with Some i => negb (is_vertex (kd a i)) | None => false end =
+                           match o with Some i => negb (is_vertex (kd b i)) | None => false end).
+  { intros [i|]; [|reflexivity]. now rewrite (obs_kd a b E). }
+  rewrite !Hbad. destruct (_ || _); cbn [fst snd res_state]; [auto|].
+  rewrite (obs_next a b E). split; [|reflexivity].
+  apply sim_r_l_add_vertex, sim_r_l_add_vertex, sim_alloc, E.
+Qed.
+
+Lemma r_step_sim a b o : obs a = obs b ->
+  obs (fst (r_step a o)) = obs (fst (r_step b o)) /\ snd (r_step a o) = snd (r_step b o).
+Proof.
+  intro E. unfold r_step. rewrite (obs_well_typed a b E).
+  destruct (well_typed b o); cbn [negb]; [|auto].
+  destruct o as [sub us ls|vs oL|ou|k x y|l ov|l ov|v l|v l|l ov|l ov|x k y dontdup|x y destroy
+                |u v|u v|v u|v u|u oL|L ou|fl].
+  - (* NewVertex *)
+    cbv zeta. rewrite (obs_next a b E). set (v := next b).
+    set (K := if sub then KVertexSub else KVertex).
+    assert (E1 : obs (fold_left (fun s l => r_v_add_to_link s v l) ls (set_vu (alloc K a) v (dedup us))) =
+                 obs (fold_left (fun s l => r_v_add_to_link s v l) ls (set_vu (alloc K b) v (dedup us)))).
+    { apply sim_fold; [intros; now apply sim_r_v_add_to_link|]. now apply sim_set_vu, sim_alloc. }
+    apply robs_ok_or. rewrite (obs_vu _ _ E1). apply sim_seq_res; [|exact E1]. intros; now apply sim_r_u_add_vertex.
+  - (* NewUniverse *)
+    cbv zeta. rewrite (obs_next a b E). apply robs_ok_or.
+    apply sim_seq_res; [intros; now apply sim_r_u_add_vertex|].
+    destruct oL as [L|].
+    + now apply sim_r_set_laws, sim_alloc.
+    + rewrite (obs_next _ _ (sim_alloc KUniverse a b E)). now apply sim_set_ul, sim_set_la, sim_alloc, sim_alloc.
+  - cbn [fst snd res_state]. rewrite (obs_next a b E). split; [|reflexivity]. now apply sim_set_la, sim_alloc.
+  - rewrite !fst_let. destruct (sim_r_new_edge k x y a b E) as [H1 H2]. split; [exact H1|].
+    destruct (r_new_edge a k x y), (r_new_edge b k x y). exact H2.
+  - apply robs_ok_or. now apply sim_r_l_set_end.
+  - apply robs_ok_or. now apply sim_r_l_set_end.
+  - cbn [fst snd res_state]. split; [|reflexivity]. now apply sim_r_v_add_to_link.
+  - cbn [fst snd res_state]. split; [|reflexivity]. now apply sim_r_v_remove_from_link.
+  - cbn [fst snd res_state]. split; [|reflexivity]. now apply sim_r_l_add_vertex.
+  - cbn [fst snd res_state]. split; [|reflexivity]. now apply sim_r_l_unlink_from.
+  - (* LinkFromTo *)
+    rewrite (obs_first_joining a b E), (obs_vl a b E).
+    destruct (if dontdup then _ else _) as [[l|]|]; cbn [fst snd res_state]; auto.
+    rewrite !fst_let. destruct (sim_r_new_edge k (Some x) (Some y) a b E) as [H1 H2]. split; [exact H1|].
+    destruct (r_new_edge a k _ _), (r_new_edge b k _ _). exact H2.
+  - (* Unlink *)
+    rewrite (obs_find_links a b E). destruct (find_links _ b x y false UErr None) as [links|e]; cbn [fst snd res_state]; auto.
+    split; [|reflexivity]. apply sim_fold; [|exact E]. intros. now apply sim_r_l_unlink_from, sim_r_l_unlink_from.
+  - apply robs_ok_or. now apply sim_r_u_add_vertex.
+  - apply robs_ok_or. now apply sim_r_u_remove_vertex.
+  - apply robs_ok_or. now apply sim_r_v_add_to_universe.
+  - apply robs_ok_or. now apply sim_r_v_remove_from_universe.
+  - cbn [fst snd res_state]. split; [|reflexivity]. now apply sim_r_set_laws.
+  - cbn [fst snd res_state]. split; [|reflexivity]. now apply sim_r_set_applies.
+  - cbn [fst snd res_state]. split; [|reflexivity]. exact E.
+Qed.
+
+Lemma cstep_query_answer filt s v d u f : Inv s -> Coh filt s -> isv s v = true ->
+  snd (cstep filt s (CNb v d u f)) =
+  match neighbors_pure filt s v d u f with NOk l => Ret (VList l) | NErr e => Raised e end.
+Proof.
+  intros HI C Hv.
+  apply (cached_answers_equal_recomputed filt [CNb v d u f] s HI C) with (pre := []) (post := []);
+    [|reflexivity|exact Hv].
+  intros o w [H|[]]. discriminate.
+Qed.
+
+Lemma query_sim filt a b v d u f : Inv a -> Inv b -> Coh filt a -> Coh filt b -> obs a = obs b ->
+  obs (fst (cstep filt a (CNb v d u f))) = obs (fst (cstep filt b (CNb v d u f))) /\
+  snd (cstep filt a (CNb v d u f)) = snd (cstep filt b (CNb v d u f)).
+Proof.
+  intros Ia Ib Ca Cb E. split.
+  - destruct (cstep_query_state filt a v d u f) as [->|[x ->]],
+             (cstep_query_state filt b v d u f) as [->|[y ->]]; exact E.
+  - destruct (isv a v) eqn:Hv.
+    + assert (Hv' : isv b v = true) by (rewrite <- (obs_isv a b E); exact Hv).
+      rewrite !cstep_query_answer by auto. now rewrite (obs_neighbors_pure a b E).
+    + cbn [cstep]. rewrite <- (obs_isv a b E), Hv. reflexivity.
+Qed.
+
+Lemma force_off_cases c :
+  force_off c = c \/ exists fl, c = CMut (SetCaching fl) /\ force_off c = CMut (SetCaching false).
+Proof. destruct c as [o|]; [destruct o|]; cbn [force_off]; eauto. Qed.
+
+Lemma answers_sim filt : forall cs a b, Inv a -> Inv b -> Coh filt a -> Coh filt b -> obs a = obs b ->
+  no_new_laws cs -> answers filt cs a = answers filt (map force_off cs) b.
+Proof.
+  induction cs as [|c cs IH]; intros a b Ia Ib Ca Cb E NL; cbn [answers map]; [reflexivity|].
+  assert (NLc : forall o u, c = CMut o -> o <> NewLaws (Some u)) by (intros o u ->; apply NL; now left).
+  assert (NLr : no_new_laws cs) by (intros o u Ho; apply NL; now right).
+  assert (NLc' : forall o u, force_off c = CMut o -> o <> NewLaws (Some u)).
+  { destruct (force_off_cases c) as [->|(fl & -> & ->)]; [exact NLc|]. intros o u [= <-]. discriminate. }
+  destruct (cstep_pres filt a c Ia Ca NLc) as [Ia' Ca'].
+  destruct (cstep_pres filt b (force_off c) Ib Cb NLc') as [Ib' Cb'].
+  assert (S : obs (fst (cstep filt a c)) = obs (fst (cstep filt b (force_off c))) /\
+              snd (cstep filt a c) = snd (cstep filt b (force_off c))).
+  { destruct c as [o|v d u f].
+    - destruct (force_off_cases (CMut o)) as [->|(fl & [= ->] & ->)].
+      + cbn [cstep]. rewrite (step_refines a o Ia), (step_refines b o Ib) by (intro; now apply NLc).
+        now apply r_step_sim.
+      + cbn [cstep]. unfold step. cbn. auto.
+    - cbn [force_off]. now apply query_sim. }
+  destruct (cstep filt a c) as [a' o1], (cstep filt b (force_off c)) as [b' o2]. cbn [fst snd] in *.
+  destruct S as [S1 ->]. f_equal. now apply IH.
+Qed.
+
+Theorem answers_independent_of_flag : forall filt cs,
+  (forall o u, In (CMut o) cs -> o <> NewLaws (Some u)) ->
+  answers filt cs empty = answers filt (map force_off cs) empty.
+Proof.
+  intros filt cs NL. apply answers_sim; auto using Inv_empty, Coh_empty.
+Qed.
+
 Print Assumptions neighbors_pure_footprint.
 Print Assumptions Coh_query.
+Print Assumptions Coh_transfer.
 Print Assumptions Coh_step.
+Print Assumptions Inv_query.
 Print Assumptions Coh_reachable.
 Print Assumptions Inv_reachable_c.
 Print Assumptions cached_answers_equal_recomputed.
+Print Assumptions answers_independent_of_flag.
